@@ -369,7 +369,16 @@ MANIFEST_TEXT["C12"] = {
     "note": "Trusted base: declaration generator + emitter, help expectations derived from the spec, terminal emulator."}
 
 PLANS["C11"]["stages"].append(dict({"custom": "declbatch"}, **_BATCHES))
+# name sets chosen at run time (hand-written Autocomplete doing what the derive generates): names that part company inside a character
+PLANS["C11"]["stages"].append({"variant": "dbg", "workload": "C11-dyn"})
+PLANS["C02"]["stages"].append({"variant": "dbg", "workload": "C11-dyn"})
+PLANS["C02"]["min_counts"]["quick"].update({"c11.dyn.completed": 200000})
+PLANS["C02"]["min_counts"]["thorough"].update({"c11.dyn.completed": 4000000})
+PLANS["C02"]["rule"] += (" stage 4: Tab completion over 60k (quick) / 1.2M (thorough) random name sets offered by a hand-written Autocomplete implementation, names sharing all but the last one or two octets of multi-byte characters "
+                         "(boundary continuation octets over-represented), every prefix, capacities around the fit: the edited line must stay well-formed.")
 PLANS["C11"]["rule"] += (" stage 2: generated name sets (unit variants with explicit multi-byte names sharing prefixes, adjacent and not, split across 1-3 groups, hidden groups, catch-all) compiled with the repository's macros: every prefix of every name (visible and hidden) x {plain, leading blanks, trailing blank(s), argument started} "
                           "x every cursor position x capacities {len, len+|cont|-1, len+|cont|, +1, 64, ...}; the terminal row/column after Tab must agree with the line")
-PLANS["C11"]["min_counts"]["quick"].update({"c11.gen.completed": 100000, "c11.gen.fit.ContDoesNotFit": 20000})
-PLANS["C11"]["min_counts"]["thorough"].update({"c11.gen.completed": 800000, "c11.gen.fit.ContDoesNotFit": 150000})
+PLANS["C11"]["min_counts"]["quick"].update({"c11.gen.completed": 100000, "c11.gen.fit.ContDoesNotFit": 20000, "c11.dyn.completed": 200000})
+PLANS["C11"]["rule"] += (" stage 3: name sets chosen at run time -- a hand-written Autocomplete that offers every name starting with the typed word, as the generated one does -- 60k / 1.2M random sets of 2-6 names "
+                         "from one or two neighbouring 64-code-point blocks (so that names part company inside a character; octets 0x80 / 0xBF over-represented), any order, every prefix, with and without a trailing blank, capacities around the fit.")
+PLANS["C11"]["min_counts"]["thorough"].update({"c11.gen.completed": 800000, "c11.gen.fit.ContDoesNotFit": 150000, "c11.dyn.completed": 4000000})
